@@ -2,6 +2,8 @@
 injected failure, and reads the backend back through new objects.  No model knowledge in here."""
 import builtins
 import contextlib
+import copy
+import io
 import json
 import os
 import re
@@ -9,6 +11,7 @@ import shutil
 import tempfile
 import warnings
 import zipfile
+import zlib
 
 import vlib
 
@@ -29,6 +32,9 @@ class InjectedFault(OSError):
 
 
 KILL_STATUS = 77
+KILL_MODES = ('noflush', 'flush', 'flush-last', 'flush-first')
+_REAL_OPEN = builtins.open
+COPY_CHUNK = 256
 
 
 class Injector:
@@ -36,16 +42,25 @@ class Injector:
     `fault_at`-th one raise InjectedFault (mode 'raise': before doing anything; mode 'partial': a file write puts half
     of the data first).  Exactly one failure per run; later primitives run normally (error handlers may clean up)."""
 
-    def __init__(self, root, fault_at=None, mode='raise', kill=None, reads=False):
+    def __init__(self, root, fault_at=None, mode='raise', kill=None, reads=False, lowlevel=False, on_position=None):
         self.root = os.path.abspath(root) if root else None
         self.fault_at = fault_at
         self.mode = mode
         # kill: None = exception semantics (the primitive raises, the code runs on);  'count' = only count the
-        # positions of the kill runs;  'flush' / 'noflush' = the PROCESS STOPS before the primitive (os._exit: no
-        # except / finally clause, no __exit__, no buffered data written unless 'flush' = everything the process
-        # handed to file objects so far has reached the disk).  Kill runs have extra positions: before a written
-        # file / archive is closed.
+        # positions of the kill runs;  a flush mode (KILL_MODES) = the PROCESS STOPS before the primitive (os._exit:
+        # no except / finally clause, no __exit__, no buffered data written unless the flush mode says so: 'flush' =
+        # everything the process handed to file objects so far has reached the disk, 'flush-last' / 'flush-first' =
+        # only the data of the file opened last / first among the files that are still open, 'noflush' = nothing).
+        # Kill runs have extra positions: before a written file / archive is closed.
+        # on_position(k, name): called before every position of a run without failure ("snapshot run": the
+        # directory is copied at every position = what a process that stops there leaves behind).
         self.kill = kill
+        self.on_position = on_position
+        self.paused = False
+        # lowlevel: the file objects zipfile opens itself (io.open) are proxied too: every low-level write of the
+        # archive writer (local header, entry data, central directory records, end record - the last ones are
+        # written inside ZipFile.close()) is a fault position of its own
+        self.lowlevel = lowlevel
         self.open_files = []
         # reads: read primitives below root (open for reading, ZipFile(..., 'r'), ZipFile.open/read) are fault
         # positions too (exception semantics only); they do not count as writes
@@ -58,6 +73,8 @@ class Injector:
         self._saved = []
 
     def _mine(self, path):
+        if self.paused:
+            return False
         try:
             return self.root is not None and os.path.abspath(os.fspath(path)).startswith(self.root + os.sep)
         except TypeError:
@@ -68,6 +85,12 @@ class Injector:
         k = self.count
         self.count += 1
         self.trace.append(name)
+        if self.on_position is not None:
+            self.paused = True
+            try:
+                self.on_position(k, name)
+            finally:
+                self.paused = False
         if self.fault_at is not None and k == self.fault_at and not self.fired:
             self.fired = True
             self.writes_before = self.nwrites       # mutating primitives completed before this one
@@ -76,15 +99,20 @@ class Injector:
             self.nwrites += 1
         return False
 
+    def flush_files(self, flush_mode):
+        """what reaches the disk although the process stops: per flush mode a selection of the files still open"""
+        live = [f for f in self.open_files if not getattr(f, 'closed', True)]
+        sel = {'flush': live, 'flush-last': live[-1:], 'flush-first': live[:1]}.get(flush_mode, [])
+        for f in sel:
+            try:
+                f.flush()
+                os.fsync(f.fileno())
+            except Exception:
+                pass
+
     def fail(self, name):
-        if self.kill in ('flush', 'noflush'):
-            if self.kill == 'flush':
-                for f in self.open_files:
-                    try:
-                        f.flush()
-                        os.fsync(f.fileno())
-                    except Exception:
-                        pass
+        if self.kill in KILL_MODES:
+            self.flush_files(self.kill)
             os._exit(KILL_STATUS)
         raise InjectedFault('injected failure at primitive %d (%s)' % (self.count - 1, name))
 
@@ -108,8 +136,9 @@ class Injector:
         real_open = builtins.open
 
         class FileProxy:
-            def __init__(self, f):
+            def __init__(self, f, label='write'):
                 self._f = f
+                self._label = label
                 inj.open_files.append(f)
 
             def close(self):
@@ -119,10 +148,10 @@ class Injector:
                 return self._f.close()
 
             def write(self, data):
-                if inj.hit('write'):
+                if inj.hit(self._label):
                     if inj.mode == 'partial':
                         self._f.write(data[:len(data) // 2])
-                    inj.fail('write')
+                    inj.fail(self._label)
                 return self._f.write(data)
 
             def writelines(self, lines):
@@ -153,6 +182,45 @@ class Injector:
                     inj.fail('open:r')
             return real_open(file, mode, *a, **kw)
         self._patch(builtins, 'open', open_)
+        self._FileProxy = FileProxy
+
+        if self.lowlevel:
+            real_io_open = io.open
+            dead = set()
+
+            def io_open(file, mode='r', *a, **kw):
+                if isinstance(file, (str, bytes, os.PathLike)) and inj._mine(file) and any(ch in mode for ch in 'wax+'):
+                    # (zipfile retries a failed open with another mode: the file stays unopenable)
+                    if file in dead:
+                        raise InjectedFault('injected failure: %r cannot be opened' % (file,))
+                    if inj.hit('io.open'):
+                        dead.add(file)
+                        inj.fail('io.open')
+                    return FileProxy(real_io_open(file, mode, *a, **kw), 'lowwrite')
+                return real_io_open(file, mode, *a, **kw)
+            self._patch(io, 'open', io_open)
+
+        # shutil: no in-kernel fast path (the copy loop would be invisible), small chunks, one position per chunk
+        self._patch(shutil, '_USE_CP_SENDFILE', False)
+        real_cfo = shutil.copyfileobj
+
+        def copyfileobj(fsrc, fdst, length=0):
+            target = getattr(fdst, 'name', None)
+            if isinstance(target, (str, bytes, os.PathLike)) and inj._mine(target):
+                while True:
+                    buf = fsrc.read(COPY_CHUNK)
+                    if not buf:
+                        return
+                    if isinstance(fdst, FileProxy):
+                        fdst.write(buf)
+                    else:
+                        if inj.hit('copyfileobj.write'):
+                            if inj.mode == 'partial':
+                                fdst.write(buf[:len(buf) // 2])
+                            inj.fail('copyfileobj.write')
+                        fdst.write(buf)
+            return real_cfo(fsrc, fdst, length)
+        self._patch(shutil, 'copyfileobj', copyfileobj)
 
         def path_fn(mod, nm, nargs):
             orig = getattr(mod, nm)
@@ -165,7 +233,7 @@ class Injector:
             self._patch(mod, nm, fn)
         for nm in ('remove', 'unlink', 'rename', 'replace', 'truncate', 'rmdir', 'link', 'symlink'):
             path_fn(os, nm, 2)
-        for nm in ('copy', 'copy2', 'copyfile', 'move', 'copyfileobj'):
+        for nm in ('copy', 'copy2', 'copyfile', 'move'):
             path_fn(shutil, nm, 2)
 
         real_mkstemp = tempfile.mkstemp
@@ -194,7 +262,8 @@ class Injector:
                 if inj.hit('zip.open:r', mutating=False):
                     inj.fail('zip.open:r')
             orig_zinit(zself, file, mode, *a, **kw)
-            if mode != 'r' and zself.filename and inj._mine(zself.filename) and zself.fp is not None:
+            if mode != 'r' and zself.filename and inj._mine(zself.filename) and zself.fp is not None \
+                    and not isinstance(zself.fp, FileProxy):
                 inj.open_files.append(zself.fp)
         self._patch(zipfile.ZipFile, '__init__', zinit)
         orig_zopen = zipfile.ZipFile.__dict__['open']
@@ -353,6 +422,7 @@ def parse_doc(text):
 
 def observe(kind, scratch, backend):
     from qupulse.serialization import FilesystemBackend, ZipFileBackend, PulseStorage
+    raw_key = None
     if kind == 'dict':
         be = backend
     elif kind in ('fs', 'cfs'):
@@ -361,16 +431,24 @@ def observe(kind, scratch, backend):
         path = os.path.join(scratch, 'store.zip')
         if not os.path.isfile(path):
             return {'missing': True, 'entries': []}
+        with _REAL_OPEN(path, 'rb') as fh:      # same bytes of the archive file => same observation
+            raw_key = fh.read()
+        if raw_key in _RAW_CACHE:
+            return json.loads(_RAW_CACHE[raw_key])
         try:
             be = ZipFileBackend(path)
             sorted(be)
         except (zipfile.BadZipFile, FileExistsError):
             # the file is there but is not a readable archive any more: every entry is lost
+            _RAW_CACHE[raw_key] = json.dumps({'missing': True, 'entries': []})
             return {'missing': True, 'entries': []}
     texts = [(name, be.get(name)) for name in sorted(be)]
     key = tuple(texts)
     if key in _OBS_CACHE:           # the result is a function of the complete content of the backend
-        return json.loads(_OBS_CACHE[key])
+        res = _OBS_CACHE[key]
+        if raw_key is not None:
+            _RAW_CACHE[raw_key] = res
+        return json.loads(res)
     entries = []
     for name, text in texts:
         m = re.fullmatch(r'n(\d+)', name)
@@ -387,11 +465,17 @@ def observe(kind, scratch, backend):
             loads = False
         entries.append([int(m.group(1)), doc, loads])
     res = {'missing': False, 'entries': entries}
+    if len(_OBS_CACHE) > 20000:
+        _OBS_CACHE.clear()
+        _RAW_CACHE.clear()
     _OBS_CACHE[key] = json.dumps(res)
+    if raw_key is not None:
+        _RAW_CACHE[raw_key] = _OBS_CACHE[key]
     return res
 
 
 _OBS_CACHE = {}
+_RAW_CACHE = {}
 _counter = [0]
 
 
@@ -415,7 +499,7 @@ def execute(case, fault_at=None, kill=None):
                     raise RuntimeError('fault outside injection')
             before = observe(kind, scratch, backend)
             inj = Injector(None if kind == 'dict' else scratch, fault_at, case.get('fault', 'raise'), kill,
-                           reads=case.get('reads', False))
+                           reads=case.get('reads', False), lowlevel=case.get('lowlevel', False))
             if kind == 'dict':
                 inj.wrap_backend_methods(backend)
             with inj:
@@ -424,7 +508,12 @@ def execute(case, fault_at=None, kill=None):
             res = {'before': before, 'outcome': outcome, 'after': after, 'count': inj.count, 'trace': inj.trace,
                    'writes_before': inj.writes_before, 'fired': inj.fired}
             if case.get('post') and kill is None:
-                res['post_outcome'] = apply_op(ps, case['post'], case['objs'], memo)
+                try:
+                    res['post_outcome'] = apply_op(ps, case['post'], case['objs'], memo)
+                except vlib.Timeout:
+                    raise
+                except Exception:
+                    res['post_outcome'] = 'unusable'
                 res['post_obs'] = observe(kind, scratch, backend)
             return res
     finally:
@@ -471,23 +560,67 @@ def _in_child(fn):
     return os.waitstatus_to_exitcode(st), (json.loads(data.decode()) if data else None)
 
 
-def execute_all(case, kill_modes=(), raise_runs=True):
-    """All runs of one case on a persistent backend.  The history runs once (no failures); the scratch directory is
-    saved; every run of the final operation happens in a forked child (which inherits the PulseStorage with its
-    cache) and the directory is restored afterwards.
-      * exception semantics: the child performs the operation with the k-th primitive raising, observes, performs
-        the follow-up operation on the same PulseStorage, observes, and reports;
-      * kill semantics (modes 'noflush' / 'flush'): the child stops (os._exit: no except / finally / __exit__ code, no
-        buffered data unless 'flush') before position k; the observation and the follow-up operation are done by
-        this process with NEW backend / PulseStorage objects, i.e. what a new process sees."""
+class _State:
+    """Shallow snapshot of the attributes of the PulseStorage and of the backend object(s) (containers are copied one
+    level deep; the cached template objects are immutable).  Restoring it + restoring the directory + forgetting
+    the objects built for the final operation puts a run back to "the history was just executed"."""
+
+    def __init__(self, ps, backend):
+        self.objs = [ps, backend] + ([backend._backend] if hasattr(backend, '_backend') else [])
+        self.saved = [self._copy(o.__dict__) for o in self.objs]
+
+    @staticmethod
+    def _copy(d):
+        return {k: (copy.copy(v) if isinstance(v, (dict, list, set)) else v) for k, v in d.items()}
+
+    def restore(self):
+        for o, sv in zip(self.objs, self.saved):
+            o.__dict__.clear()
+            o.__dict__.update(self._copy(sv))
+
+
+def _raw_copytree(src, dst):
+    """copies the bytes that are on disk right now (unpatched primitives; used inside an injection context)"""
+    os.mkdir(dst)
+    for e in os.scandir(src):
+        if e.is_dir(follow_symlinks=False):
+            _raw_copytree(e.path, os.path.join(dst, e.name))
+        else:
+            with _REAL_OPEN(e.path, 'rb') as f:
+                data = f.read()
+            with _REAL_OPEN(os.path.join(dst, e.name), 'wb') as f:
+                f.write(data)
+
+
+def _leftovers(kind, scratch):
+    top = scratch if kind == 'zip' else os.path.join(scratch, 'store')
+    return len([f for f in os.listdir(top) if not re.fullmatch(r'n\d+\.json|store\.zip', f)])
+
+
+def _case_rng(case):
+    import random
+    return random.Random(zlib.crc32(json.dumps(case, sort_keys=True, default=str).encode()))
+
+
+def run_case(case, kill_modes=(), real_kills=2, validate=1):
+    """All runs of one case.  The history runs ONCE (no failures); directory and object state are saved; then the
+    final operation runs
+      * once without failure and once per primitive with that primitive raising (exception semantics; follow-up
+        operation on the same PulseStorage), each time from the restored state; `validate` of these runs (chosen by a
+        case-determined random generator; None = all) are repeated by `execute` from scratch (new directory, history
+        re-run) and must agree;
+      * per flush mode once as a SNAPSHOT RUN: no failure, the directory is copied before every position (after
+        flushing what the mode says) = what a process that stops there leaves behind; each copy is observed, and the
+        follow-up operation performed on it, through NEW backend / PulseStorage objects; at `real_kills` positions per
+        mode (None = all) the process really is killed there (forked child, os._exit) and what it leaves must be
+        observed equal to the copy."""
     from qupulse.serialization import PulseStorage
     _counter[0] += 1
     scratch = os.path.join(SCRATCH_ROOT, 'r%d' % _counter[0])
-    backup = scratch + '.bak'
+    backup, snaproot = scratch + '.bak', scratch + '.snap'
     os.makedirs(scratch)
     kind = case['backend']
-    if kind == 'dict':
-        raise ValueError('needs a persistent backend')
+    rng = _case_rng(case)
     try:
         with warnings.catch_warnings():
             warnings.simplefilter('ignore')
@@ -497,83 +630,129 @@ def execute_all(case, kill_modes=(), raise_runs=True):
             for op in case['history']:
                 if apply_op(ps, op, case['objs'], memo) == 'fault':
                     raise RuntimeError('fault outside injection')
-            before = observe(kind, scratch, None)
-            shutil.copytree(scratch, backup)
+            before = observe(kind, scratch, backend)
+            state = _State(ps, backend)
+            hist_memo = dict(memo)
+            if kind != 'dict':
+                shutil.copytree(scratch, backup)
 
-            def restore():
-                shutil.rmtree(scratch, ignore_errors=True)
-                shutil.copytree(backup, scratch)
+            def reset():
+                state.restore()
+                memo.clear()
+                memo.update(hist_memo)
+                if kind != 'dict':
+                    shutil.rmtree(scratch, ignore_errors=True)
+                    shutil.copytree(backup, scratch)
+
+            def injector(fault_at, kill=None, on_position=None):
+                inj = Injector(None if kind == 'dict' else scratch, fault_at, case.get('fault', 'raise'), kill,
+                               reads=case.get('reads', False), lowlevel=case.get('lowlevel', False),
+                               on_position=on_position)
+                if kind == 'dict':
+                    inj.wrap_backend_methods(backend)
+                return inj
 
             def raise_run(fault_at):
-                def fn():
-                    inj = Injector(scratch, fault_at, case.get('fault', 'raise'))
+                inj = injector(fault_at)
+                try:
                     with inj:
                         outcome = apply_op(ps, case['final'], case['objs'], memo)
-                    res = {'outcome': outcome, 'after': observe(kind, scratch, None), 'count': inj.count,
-                           'trace': inj.trace, 'writes_before': inj.writes_before, 'fired': inj.fired}
+                    res = {'before': before, 'outcome': outcome, 'after': observe(kind, scratch, backend),
+                           'count': inj.count, 'trace': inj.trace, 'writes_before': inj.writes_before,
+                           'fired': inj.fired}
                     if case.get('post'):
-                        res['post_outcome'] = apply_op(ps, case['post'], case['objs'], memo)
-                        res['post_obs'] = observe(kind, scratch, None)
+                        try:
+                            res['post_outcome'] = apply_op(ps, case['post'], case['objs'], memo)
+                        except vlib.Timeout:
+                            raise
+                        except Exception:      # e.g. the archive / a listed document is not readable any more
+                            res['post_outcome'] = 'unusable'
+                        res['post_obs'] = observe(kind, scratch, backend)
                     return res
-                code, res = _in_child(fn)
-                restore()
-                if code != 0 or res is None or 'child_error' in res:
-                    raise RuntimeError('run with failure at %s: exit %s %s' % (fault_at, code, res))
-                return res
+                finally:
+                    reset()
 
-            def kill_run(fault_at, mode):
-                def fn():
-                    inj = Injector(scratch, fault_at, case.get('fault', 'raise'), mode)
+            r0 = raise_run(None)
+            runs = [raise_run(k) for k in range(r0['count'])]
+            out = {'r0': r0, 'runs': runs, 'kills': [], 'ktrace': [], 'validated': 0}
+
+            # independent repetition of some runs (separate directory, history executed again)
+            choices = [None] + list(range(r0['count']))
+            picked = choices if validate is None else [rng.choice(choices) for _ in range(validate)]
+            for k in picked:
+                ind = execute(case, k)
+                mine = r0 if k is None else runs[k]
+                for fld in ('before', 'outcome', 'after', 'trace', 'writes_before', 'fired', 'post_outcome', 'post_obs'):
+                    if ind.get(fld) != mine.get(fld):
+                        return {'error': 'run from the restored state differs from an independent run (failure at %s, %s)'
+                                         % (k, fld)}
+                out['validated'] += 1
+
+            if kind == 'dict' or not kill_modes:
+                return out
+            for mode in kill_modes:
+                moderoot = os.path.join(snaproot, mode)
+                os.makedirs(moderoot)
+                holder = {}
+
+                def on_position(k, name, _mode=mode, _root=moderoot):
+                    holder['inj'].flush_files(_mode)
+                    _raw_copytree(scratch, os.path.join(_root, 'k%d' % k))
+                inj = injector(None, 'snapshot', on_position)
+                holder['inj'] = inj
+                try:
                     with inj:
-                        apply_op(ps, case['final'], case['objs'], memo)
-                    return inj.trace
-                return _in_child(fn)
-
-            out = {'before': before, 'kills': [], 'ktrace': []}
-            if raise_runs:      # (slower than re-running the history in this process: not used by the check)
-                r0 = raise_run(None)
-                r0['before'] = before
-                runs = []
-                for k in range(r0['count']):
-                    rk = raise_run(k)
-                    rk['before'] = before
-                    runs.append(rk)
-                out.update({'r0': r0, 'runs': runs})
-            if kill_modes:
-                code, trace = kill_run(None, 'count')
-                out['after'] = observe(kind, scratch, None)
-                restore()
-                if code != 0:
-                    return {'error': 'kill counting run: exit %s' % code}
-                out['ktrace'] = trace
-                for mode in kill_modes:
-                    seq = []
-                    for k in range(len(trace)):
-                        code, _ = kill_run(k, mode)
+                        outcome = apply_op(ps, case['final'], case['objs'], memo)
+                    after = observe(kind, scratch, backend)
+                finally:
+                    reset()
+                if outcome != r0['outcome'] or after != r0['after']:
+                    return {'error': 'non-deterministic run (snapshot run, %s)' % mode}
+                if out['ktrace'] and out['ktrace'] != inj.trace:
+                    return {'error': 'non-deterministic positions (snapshot runs)'}
+                out['ktrace'] = trace = inj.trace
+                seq = []
+                for k in range(len(trace)):
+                    snap = os.path.join(moderoot, 'k%d' % k)
+                    r = {'k': k, 'prim': trace[k], 'mode': mode, 'wb': k, 'obs': observe(kind, snap, None),
+                         'leftovers': _leftovers(kind, snap), 'post_outcome': None}
+                    if case.get('post'):
+                        try:
+                            ps2 = PulseStorage(make_backend(kind, snap))
+                            r['post_outcome'] = apply_op(ps2, case['post'], case['objs'], {})
+                        except Exception:      # e.g. the archive is not readable any more
+                            r['post_outcome'] = 'unusable'
+                        r['post'] = observe(kind, snap, None)
+                    else:
+                        r['post'] = r['obs']
+                    seq.append(r)
+                out['kills'].append(seq)
+                # the process really stops at some of the positions: same remains as the copy?
+                ks = list(range(len(trace)))
+                if real_kills is not None and len(ks) > real_kills:
+                    ks = sorted(rng.sample(ks, real_kills))
+                for k in ks:
+                    def fn(_k=k, _mode=mode):
+                        with injector(_k, _mode):
+                            apply_op(ps, case['final'], case['objs'], memo)
+                        return None
+                    try:
+                        code, _ = _in_child(fn)
                         if code != KILL_STATUS:
                             return {'error': 'kill run k=%d (%s) did not stop at the position (exit %s)' % (k, mode, code)}
-                        top = scratch if kind == 'zip' else os.path.join(scratch, 'store')
-                        leftovers = [f for f in os.listdir(top) if not re.fullmatch(r'n\d+\.json|store\.zip', f)]
-                        r = {'k': k, 'prim': trace[k], 'mode': mode, 'wb': k, 'obs': observe(kind, scratch, None),
-                             'leftovers': len(leftovers), 'post_outcome': None}
-                        if case.get('post'):
-                            try:
-                                ps2 = PulseStorage(make_backend(kind, scratch))
-                                r['post_outcome'] = apply_op(ps2, case['post'], case['objs'], {})
-                            except Exception:      # e.g. the archive is not readable any more
-                                r['post_outcome'] = 'unusable'
-                            r['post'] = observe(kind, scratch, None)
-                        else:
-                            r['post'] = r['obs']
-                        seq.append(r)
-                        restore()
-                    out['kills'].append(seq)
+                        if observe(kind, scratch, None) != seq[k]['obs'] or _leftovers(kind, scratch) != seq[k]['leftovers']:
+                            return {'error': 'killed process (k=%d, %s) leaves something else than the copy taken at '
+                                             'that position' % (k, mode)}
+                        seq[k]['real_kill'] = True
+                    finally:
+                        reset()
+                shutil.rmtree(moderoot, ignore_errors=True)
             return out
     finally:
         shutil.rmtree(scratch, ignore_errors=True)
         shutil.rmtree(backup, ignore_errors=True)
+        shutil.rmtree(snaproot, ignore_errors=True)
 
 
 def cleanup():
-    _OBS_CACHE.clear()
     shutil.rmtree(SCRATCH_ROOT, ignore_errors=True)
